@@ -30,7 +30,8 @@ type CPort struct {
 }
 
 // Kind is one of Pod Deployment ReplicaSet StatefulSet DaemonSet Job CronJob ReplicationController,
-// or "Owned:<OwnerKind>" for bare pods sharing one controller ownerReference.
+// or "Owned:<OwnerKind>" for bare pods sharing one controller ownerReference ("Owned2:<OwnerKind>": the pods carry a
+// second, non-controller ownerReference listed before the controller one).
 type Workload struct {
 	Ns, Name, Kind string
 	Replicas       int               // -1 => field absent
@@ -56,11 +57,15 @@ type Rule struct {
 	Ports []PPort `json:",omitempty"`
 }
 type NetPol struct {
-	Ns, Name    string
-	PodSel      Selector `json:",omitempty"`
-	PolicyTypes []string `json:",omitempty"` // nil => absent
-	Ingress     []Rule   `json:",omitempty"`
-	Egress      []Rule   `json:",omitempty"`
+	Ns, Name string
+	// EmptyIngress / EmptyEgress: a direction without rules is written as an explicit empty list (`egress: []`)
+	// instead of being omitted - same meaning
+	EmptyIngress bool     `json:",omitempty"`
+	EmptyEgress  bool     `json:",omitempty"`
+	PodSel       Selector `json:",omitempty"`
+	PolicyTypes  []string `json:",omitempty"` // nil => absent
+	Ingress      []Rule   `json:",omitempty"`
+	Egress       []Rule   `json:",omitempty"`
 }
 type APort struct {
 	Kind      string `json:",omitempty"` // number range named
@@ -545,8 +550,16 @@ func (w *World) addrConstants(extra []uint64) []uint64 {
 }
 
 func (wl *Workload) PeerString() string {
-	kind := strings.TrimPrefix(wl.Kind, "Owned:")
+	kind := ownedKind(wl.Kind)
 	return wl.Ns + "/" + wl.Name + "[" + kind + "]"
+}
+
+func isOwned(kind string) bool {
+	return strings.HasPrefix(kind, "Owned:") || strings.HasPrefix(kind, "Owned2:")
+}
+
+func ownedKind(kind string) string {
+	return strings.TrimPrefix(strings.TrimPrefix(kind, "Owned2:"), "Owned:")
 }
 
 // Clone returns a deep copy (through JSON, which is also the replay encoding).
